@@ -1,7 +1,6 @@
 import enum
 import numpy as np
 from queue import deque
-from itertools import permutations
 
 INTERNET = 0
 
@@ -90,15 +89,39 @@ def get_minimal_hops_to_goal(topology, sensitive_addresses):
         if subnet not in subnets_to_visit:
             subnets_to_visit.append(subnet)
 
-    # find minimum shortest path that visits internet subnet and all
-    # sensitive subnets by checking all possible permutations
-    shortest = max_value
-    for pm in permutations(subnets_to_visit):
-        pm_sum = 0
-        for i in range(len(pm) - 1):
-            pm_sum += distance[pm[i]][pm[i+1]]
-        shortest = min(shortest, pm_sum)
+    # find the smallest tree that connects the internet subnet and all
+    # sensitive subnets (the attacker can branch out from an already
+    # compromised subnet, so this is a minimum Steiner tree rather than a
+    # single path visiting the subnets one after the other).
+    # tree_size[m][v] = min number of edges of a tree containing subnet v
+    # and the subnets to visit selected by bitmask m (Dreyfus-Wagner)
+    inf = float("inf")
+    dist = [
+        [inf if d == max_value else int(d) for d in row] for row in distance
+    ]
+    num_to_visit = len(subnets_to_visit)
+    full = (1 << num_to_visit) - 1
+    tree_size = [[inf] * num_subnets for _ in range(full + 1)]
+    for i, subnet in enumerate(subnets_to_visit):
+        for v in range(num_subnets):
+            tree_size[1 << i][v] = dist[subnet][v]
+    for m in range(1, full + 1):
+        if m & (m - 1) == 0:
+            continue
+        for v in range(num_subnets):
+            sub = (m - 1) & m
+            while sub > 0:
+                joined = tree_size[sub][v] + tree_size[m ^ sub][v]
+                tree_size[m][v] = min(tree_size[m][v], joined)
+                sub = (sub - 1) & m
+        for v in range(num_subnets):
+            for w in range(num_subnets):
+                extended = tree_size[m][w] + dist[w][v]
+                tree_size[m][v] = min(tree_size[m][v], extended)
 
+    shortest = tree_size[full][INTERNET]
+    if shortest == inf:
+        return max_value
     return shortest
 
 
